@@ -121,6 +121,9 @@ func (e *Engine) eventEnv(st *State, fr *Frame, ev *EventClause, args []Val) *En
 			env.vars[k] = v
 		}
 	}
+	for k, v := range st.gvars {
+		env.vars[k] = v
+	}
 	for i, p := range ev.Params {
 		if i < len(args) && p != "_" && p != "" {
 			env.vars[p] = args[i]
@@ -167,6 +170,12 @@ func (e *Engine) runEvent(st *State, fr *Frame, ev *EventClause, env *Env, what 
 // ghostAssign: lhs is x.g  or  x.g[k]  or  x.g[k][j]
 func (e *Engine) ghostAssign(st *State, env *Env, g GhostUpdate) {
 	rhs := env.eval(g.RHS)
+	if g.LHS.Op == "id" {
+		if old, ok := st.gvars[g.LHS.Name]; ok {
+			st.gvars[g.LHS.Name] = Val{S: env.coerce(rhs, old.T).S, T: old.T}
+			return
+		}
+	}
 	var idx []*SExpr
 	lhs := g.LHS
 	for lhs.Op == "index" {
@@ -360,8 +369,8 @@ func (e *Engine) specBuiltin(env *Env, name string, ex *SExpr) (Val, bool) {
 		rn := env.st.freshConst("elemsrow", "(Array Int Int)")
 		env.st.assume(eq(rn, row))
 		env.st.assume(fmt.Sprintf("(= (elems!Int %s %s 0) ((as const (Array Int Bool)) false))", rn, off))
-		env.st.assume(fmt.Sprintf("(forall ((n!e Int)) (! (=> (> n!e 0) (= (elems!Int %s %s n!e) (store (elems!Int %s %s (- n!e 1)) (select %s (+ %s (- n!e 1))) true))) :pattern ((elems!Int %s %s n!e))))",
-			rn, off, rn, off, rn, off, rn, off))
+		env.st.assume(fmt.Sprintf("(forall ((n!e Int)) (! (=> (> n!e 0) (= (elems!Int %s %s n!e) (store (elems!Int %s %s (- n!e 1)) (select %s %s) true))) :pattern ((elems!Int %s %s n!e))))",
+			rn, off, rn, off, rn, ix(off, "(- n!e 1)"), rn, off))
 		return Val{S: fmt.Sprintf("(elems!Int %s %s %s)", rn, off, n.S), T: &ghostMapType{key: slt.Elem(), elem: tBool}}, true
 	case "same":
 		// same(a, b): two slices have the same header (backing array, offset, length)
